@@ -62,6 +62,26 @@ CHECKS["C15"] = dict(category="proof",
    note="yaml.v3 (node tags, values, positions) and net/url.QueryUnescape are parameters: the latter is ported (queryUnescape) and validated by the correspondence; the former is an input of the model",
    technique="Lean 4 theorems over a hand-written model + differential correspondence vs the real TransformModFile")
 
+PROOF_NOTE = "Theorems are about the hand-written Lean ports; the ports are tied to the code by the differential correspondence on the generated inputs reported in the evidence. ANTLR's lexer/parser (text -> parse tree) is a parameter: no .g4 -> Lean recogniser was built, so every statement that needs that step is executed by oracles on the real code, not proved."
+CHECKS.update({
+ "C01": dict(category="proof",
+   text="PARTIAL PROOF. Proved for every typed CST of a relation declaration (all rewrite shapes, depths, layouts, redundant parentheses, keyword identifiers, restrictions): the listener port records exactly the CST's denotation (parse_side = Proofs/Listener.walk_decl, by mutual structural induction over the operator-stack machine), and rendering the parsed relation back to DSL always succeeds (render_always_succeeds: the parser image is DSL-expressible, combined with C02's print_ok_iff_expressible). Not proved: that lexing+parsing the printed text yields a tree of the same denotation and byte-stability of the third rendering (needs a model of ANTLR); these are executed on every run by the metamorphic oracle d->m1->d2->m2->d3 on both API paths, with the Lean listener/printer ports compared against the real ones on the same inputs.",
+   design_ref="DESIGN.md §6.1", note=PROOF_NOTE,
+   technique="Lean 4 theorems (mutual structural induction over CSTs) about hand-written ports + differential correspondence + metamorphic oracle"),
+ "C02": dict(category="proof",
+   text="Proved for every rewrite tree about the printer port: printing a relation succeeds iff the tree is DSL-expressible in a path-based, code-independent sense (no unset userset; no direct assignment, or exactly one reachable from the root through first operands / exclusion bases, where any direct child of a union/intersection counts because it is hoisted) - print_ok_iff_expressible; every failure is the unsupported-nesting error for that type and relation - print_error_is_nesting; IsRelationAssignable holds iff the printer's direct-assignment counter is positive and the counter equals the number of direct assignments - assignable_iff_counted; hoisting is a permutation - hoist_is_permutation. The port is tied to the real printer on ALL rewrite trees with <= 7 nodes (exhaustive) plus random deep models. 'Parsing the produced DSL gives back the input up to the four normalisations' is executed by the oracle (needs the real parser), not proved. Two open findings on degenerate inputs (empty operator, direct assignment without restrictions) are witnessed by kernel-checked examples.",
+   design_ref="DESIGN.md §6.2", note=PROOF_NOTE,
+   technique="Lean 4 theorems about a hand-written port + exhaustive small-scope correspondence vs the real printer"),
+ "C03": dict(category="proof",
+   text="PARTIAL PROOF. Proved for all typed CSTs of relation declarations, which carry every layout choice of the grammar (text of each WHITESPACE/NEWLINE token, optional tokens, line breaks in restriction lists, redundant parentheses of any depth, keyword tokens as identifiers): two declarations with the same name, denotation and declared restrictions leave the listener in the same state (listener_layout_invariant), and the relation recorded is the denotation of the CST with operand order and nesting as written and the restrictions in order (declared_rewrite_recorded). Not proved: that the real lexer/parser accept every grammatical text and build that tree, and the comment pre-pass lemma; both are executed: an independent grammar-mirroring renderer writes generated models and module files in random layouts, the real parser must return exactly the model written, and the Lean pre-pass + listener ports are compared with the real pipeline on the real parse trees.",
+   design_ref="DESIGN.md §6.3", note=PROOF_NOTE,
+   technique="Lean 4 theorems (layout-carrying CST, listener port) + independent renderer oracle + differential correspondence"),
+ "C09": dict(category="proof",
+   text="PARTIAL PROOF (listener half). Proved for EVERY parse tree of any shape, grammatical or error-recovered: the listener's error log only grows during the walk (walk_grows, all 20 callbacks), and a model is returned only if ANTLR reported nothing and the log is empty at the end (any_error_voids_result) - so an error raised at any position or depth voids the result. A relation declaration whose name is already defined raises an error whatever surrounds it and no continuation of the walk can end with an empty log (duplicate_relation_rejected_anywhere); an accepted declaration is reflected in the model with exactly its denotation and no earlier relation is lost (declaration_reflected). The grammar half (mixed operators, direct assignment not first, empty/ill-formed restriction, headers, container types) is a property of the ANTLR parser and is NOT proved: it is covered by the 11-kind catalogue of violations injected at random sites, depths and layouts on the real parser, and by C19's automaton equalities.",
+   design_ref="DESIGN.md §6.9", note=PROOF_NOTE,
+   technique="Lean 4 theorems over all trees (error-log monotonicity) + injected-violation oracle + differential correspondence"),
+})
+
 NOT_YET = {}
 
 def main():
